@@ -20,6 +20,7 @@ from pgv import lift, spec_si as S, sx
 _R = z3.RealSort()
 UF = {n: z3.Function('cp_' + n, _R, _R, _R, _R) for n in
       ('p', 'rhomass', 'rhomolar', 'hmolar', 'surface_tension')}
+TWOPHASE = 6  # token for CP.iphase_twophase
 QT, PQ = 11, 22  # tokens for CP.QT_INPUTS / CP.PQ_INPUTS (concrete reals in the UF argument)
 
 
@@ -56,6 +57,13 @@ class StateStub:
         if self.cur is not None and self.cur[0] == QT:
             return sx.SymReal(sx.SymReal.lift(self.cur[2]))
         return sx.cur().fresh('state_T')
+
+    def phase(self):
+        # after a saturation (Q, T) update the state is on the two-phase boundary, whichever side; unspecified otherwise
+        self._may_fail('phase')
+        if self.cur is not None and self.cur[0] == QT:
+            return TWOPHASE
+        return sx.cur().fresh('state_phase')
 
     def Q(self):
         self._may_fail('Q')
@@ -99,6 +107,7 @@ class CPStub:
     """stands in for the `CoolProp` module inside pygaps.core.adsorbate"""
     QT_INPUTS = QT
     PQ_INPUTS = PQ
+    iphase_twophase = TWOPHASE
 
     def __init__(self, faults=True):
         self.faults = faults
@@ -273,8 +282,14 @@ def sequence_block(block):
             spec = _spec(eng, cu._PRESSURE_UNITS)
             ads = A.Adsorbate('x', backend_name='X')
             T1, T2 = eng.real('T1', positive=True), eng.real('T2', positive=True)
-            getattr(ads, g1)(T1)
             x_ = {'replay': {'kind': 'getter.sequence', 'g1': g1, 'g2': g2}}
+            try:
+                getattr(ads, g1)(T1)
+            except (sx.Unsupported, sx._Infeasible):
+                raise
+            except Exception as exc:
+                eng.prove(f"{base}/history.independent_of_previous_call/after:{g1}", False, extra=dict(x_, observed=f"first call: {type(exc).__name__}"))
+                return
             try:
                 r2 = getattr(ads, g2)(T2)
             except (sx.Unsupported, sx._Infeasible):
